@@ -166,6 +166,12 @@ type gate struct {
 	call *OpenCall
 }
 
+// readGate parks one Read of a stream (GateReads mode).
+type readGate struct {
+	ch     chan struct{}
+	stream int // index of the stream in Daemon.Streams
+}
+
 // Daemon is the simulated Docker daemon plus API client.
 type Daemon struct {
 	client.APIClient // nil: any other method panics (harness limit)
@@ -181,12 +187,13 @@ type Daemon struct {
 	verbose bool
 	log     []string
 
-	Lists   []ListCall
-	opens   []*OpenCall
-	Streams []*SimStream
-	parked  []*gate
-	arrival chan struct{}
-	never   chan struct{}
+	Lists       []ListCall
+	opens       []*OpenCall
+	Streams     []*SimStream
+	parked      []*gate
+	parkedReads []*readGate
+	arrival     chan struct{}
+	never       chan struct{}
 
 	opensByID    map[string]int
 	wakes        []time.Time
@@ -648,9 +655,55 @@ func (s *SimStream) nextMark(off int) int {
 	return len(s.layout.Data)
 }
 
+func (d *Daemon) listCount() int {
+	d.mu.Lock()
+	defer d.mu.Unlock()
+	return len(d.Lists)
+}
+
+// ParkedReads returns the parked reads ordered by stream index.
+func (d *Daemon) ParkedReads() []*readGate {
+	d.mu.Lock()
+	defer d.mu.Unlock()
+	out := append([]*readGate(nil), d.parkedReads...)
+	sort.SliceStable(out, func(i, j int) bool { return out[i].stream < out[j].stream })
+	return out
+}
+
+// ReleaseRead lets one parked read proceed.
+func (d *Daemon) ReleaseRead(g *readGate) {
+	d.mu.Lock()
+	for i, p := range d.parkedReads {
+		if p == g {
+			d.parkedReads = append(d.parkedReads[:i], d.parkedReads[i+1:]...)
+			break
+		}
+	}
+	d.mu.Unlock()
+	d.note("release_read", g.stream, 0)
+	close(g.ch)
+}
+
 // Read implements io.Reader.
 func (s *SimStream) Read(p []byte) (int, error) {
 	d := s.d
+	if d.variant.GateReads && !d.noSleep {
+		d.mu.Lock()
+		idx := -1
+		for i, st := range d.Streams {
+			if st == s {
+				idx = i
+			}
+		}
+		g := &readGate{ch: make(chan struct{}), stream: idx}
+		d.parkedReads = append(d.parkedReads, g)
+		d.mu.Unlock()
+		select {
+		case d.arrival <- struct{}{}:
+		default:
+		}
+		<-g.ch
+	}
 	d.mu.Lock()
 	if s.closed {
 		s.Info.ReadAfterClose++
